@@ -516,7 +516,8 @@ def simulate(rng, tmp, p):
     header = {
         "HD": {"VN": "1.5", "SO": "coordinate"},
         "SQ": [{"SN": c, "LN": len(sim.ref[c])} for c in sim.chroms],
-        "RG": [{"ID": "rg_" + s, "SM": s} for s in samples],
+        # rg_only_read_samples: a sample that was not sequenced has no read group in the header either
+        "RG": [{"ID": "rg_" + s, "SM": s} for s in (p.get("read_samples", samples) if p.get("rg_only_read_samples") else samples)],
     }
     qual_mode = p.get("qual_mode", "const")
     groups = {}
